@@ -137,7 +137,7 @@ func TestVerifC01(t *testing.T) {
 		}
 	})
 
-	n := r.N(700, 120000)
+	n := r.N(700, 28000)
 	r.Cases("rand", n, func(i int, id string, rng *vk.Rand) {
 		nops := 1 + rng.Intn(3)
 		keys := vKeysLow
